@@ -131,6 +131,18 @@ func verifyFunction(w *World, fn *ssa.Function, spec *FuncSpec) (vc *VC) {
 		}
 	}
 	fr.curReach = "true"
+	fr.letVals = map[string]Term{}
+	for _, l := range spec.Lets {
+		c0 := fr.specCtx(st, st, fn.Blocks[0], 0)
+		t, err := c0.eval(l.E)
+		if err != nil {
+			vc.unsupportedf("let %s: %v", l.Text, err)
+			continue
+		}
+		n := vc.fresh("let_" + l.Name)
+		vc.define(n, t.Sort, t.S)
+		fr.letVals[l.Name] = Term{n, t.Sort, t.T}
+	}
 	ctx := fr.specCtx(st, st, fn.Blocks[0], 0)
 	for _, rq := range spec.Requires {
 		g, err := ctx.evalBool(rq.E)
